@@ -8,7 +8,11 @@ Bounded exhaustive enumeration (driver E1) on the real lena code:
     evaluated on every value of a small family (data x contexts, with scalars on the dotted path) and
     the boolean / exception type is compared with a recursive reference evaluator (mc/ref/c15_model.py);
   * specifications whose sub-selectors carry their own raise_on_error (barrier semantics);
-  * SelectContext over present / absent / through-a-scalar keys in the three key notations;
+  * SelectContext over present / absent / through-a-scalar keys in the key notations (dotted string,
+    list, both dictionary spellings), the empty key (the whole context) included;
+  * key paths of every length 0..4 (SelectContext) / 1..5 (string selectors) over two keys, so that
+    components repeat, against chains of nested dictionaries of every depth with scalar, falsy and
+    empty-dictionary ends;
   * Filter.run / Filter.fill_into keep exactly the values the same selector selects (identity, order);
   * GroupBy: every (group_by, merge) assignment of the key alphabet accepted by lena, every ordered
     pair of contexts of a depth-3 family (scalars where a dictionary is expected, empty dictionaries),
@@ -30,6 +34,10 @@ RULE = ("every selector specification of the tier's grammar is built once per ra
         "and construction form and evaluated on every value of the family; a selector case is "
         "non-trivial when the specification is composite and either contains Not or its leaves do "
         "not all have the same outcome on that value (so the combination rule decides the result). "
+        "Path law: every dotted string of 1..n components (string selectors) and every key path of 0..n "
+        "components in every notation (SelectContext) is evaluated on every chain context; non-trivial "
+        "when at least two components of the string are keys on the way down or the value is selected "
+        "(strings), when the addressed sub-context is present (SelectContext). "
         "Every accepted (group_by, merge) assignment is run on every ordered pair of family contexts "
         "(fresh GroupBy per pair) and on the whole family in one GroupBy; a GroupBy pair is non-trivial "
         "when the two contexts differ and the statement fixes whether they share a group. Filter "
@@ -38,8 +46,13 @@ RULE = ("every selector specification of the tier's grammar is built once per ra
 ASSUMPTIONS = [
     "contexts are JSON-like nested dictionaries over the keys a, b, c (d in thorough) with int / str "
     "(and one list) leaves; no floats, no bool next to int",
-    "string selectors are non-empty dotted paths with non-empty components (a, a.b, a.b.c); the empty "
-    "string is outside the alphabet (lena documents it as undecided)",
+    "string selectors are non-empty dotted paths with non-empty components (a, a.b, a.b.c; the path law: "
+    "1..5 components from a, b and a last component 1 / 0, thorough 1..6); the empty string as a string "
+    "selector is outside the alphabet (lena documents it as undecided); leaves whose string form "
+    "contains a dot are outside the alphabet",
+    "the empty SelectContext key ('', [] or {}) addresses the context itself (get_recursively: 'if keys "
+    "is empty, d is returned'); the context of a value without a context is the empty dictionary; "
+    "dotted SelectContext keys have non-empty components",
     "class selectors are int, str, list and the data are exact instances (no subclasses, no bool)",
     "results are compared by truth value, exceptions by type only",
     "OR / AND may short-circuit from the left or evaluate every item: an exception raised by an item "
@@ -53,7 +66,7 @@ ASSUMPTIONS = [
     "acceptance of a (group_by, merge) pair is taken from lena (LenaValueError = not accepted), as in "
     "the property's quantifier; a floor on the number of accepted assignments guards against vacuity",
 ]
-NONTRIVIAL_FLOOR = {"quick": 200000, "thorough": 1000000}
+NONTRIVIAL_FLOOR = {"quick": 300000, "thorough": 1200000}
 BUDGET_S = {"quick": 240, "thorough": 3000}
 
 # --------------------------------------------------------------------------------------------------
@@ -76,8 +89,75 @@ SEL_DATA = [0, 1, "s", []]
 SC_EXTRA_CONTEXTS = [{"a": 0}, {"a": {"b": 0}}, {"a": {"b": None}}, {"b": {"a": 1}},
                      {"a": {"b": {"c": 0}}}, {"a": {"b": {"c": {}}}}, {"a": [1]}]
 SC_KEYS = [("str", "a"), ("str", "a.b"), ("str", "a.b.c"), ("list", "a.b"), ("list", "a"),
-           ("dict", "a.b"), ("dict", "a.b.c")]
+           ("dict", "a.b"), ("dict", "a.b.c"),
+           # the empty path addresses the context itself ("", [], {}); the other dictionary spelling
+           ("str", ""), ("list", ""), ("dict", ""), ("dict0", "a.b")]
 SC_PREDS = ["p_is1", "p_falsy", "p_pos", "p_len"]
+
+
+# -- the path family: key paths of every length over two keys (so that components repeat), as string
+# selectors and as SelectContext keys, on contexts that are chains of nested dictionaries of every depth
+PATH_KEYS = ("a", "b")
+PATH_TERMINALS = [1, "b", {}, 0, None]     # two falsy scalars, an empty dictionary
+PATH_PREDS = ["p_is1", "p_falsy", "p_pos", "p_len"]
+PATH_DATUM = "p"        # no other law uses this datum: path cases are distinct from all other cases
+
+
+def path_seqs(lo, hi):
+    out = []
+    for n in range(lo, hi + 1):
+        out.extend(itertools.product(PATH_KEYS, repeat=n))
+    return out
+
+
+def chain_context(keys, terminal, decorated):
+    """{k1: {k2: ... terminal}}; *decorated*: every level also holds the other key with the leaf 1."""
+    cur = copy.deepcopy(terminal)
+    for k in reversed(keys):
+        level = {k: cur}
+        if decorated:
+            level[PATH_KEYS[1 - PATH_KEYS.index(k)]] = 1
+        cur = level
+    return cur
+
+
+def path_values(maxdepth):
+    """json descriptions of the values: a bare datum, then all chains of depth 0..maxdepth x terminals,
+    plain and decorated."""
+    out = [{"data": PATH_DATUM, "ctx": None}]
+    for keys in path_seqs(0, maxdepth):
+        for t in PATH_TERMINALS:
+            if not keys:
+                if isinstance(t, dict):
+                    out.append({"data": PATH_DATUM, "ctx": {}})
+                continue
+            out.append({"data": PATH_DATUM, "ctx": chain_context(keys, t, False)})
+            out.append({"data": PATH_DATUM, "ctx": chain_context(keys, t, True)})
+    return out
+
+
+def path_strings(maxlen):
+    """Dotted strings of 1..maxlen components: keys only, or keys and a last component '1' / '0'
+    (matched by the string form of a leaf)."""
+    out = [".".join(q) for q in path_seqs(1, maxlen)]
+    for last in ("1", "0"):
+        out += [".".join(q + (last,)) for q in path_seqs(0, maxlen - 1)]
+    return out
+
+
+def path_sc_keys(maxlen):
+    """(notation, dotted) for every path of 0..maxlen keys in every notation."""
+    out = []
+    for q in path_seqs(0, maxlen):
+        dotted = ".".join(q)
+        out.extend((n, dotted) for n in M.sc_notations(dotted))
+    return out
+
+
+def _path_dom(tier):
+    if tier == "thorough":
+        return dict(s_len=6, s_depth=6, sc_len=5, sc_depth=5, chunks=16)
+    return dict(s_len=5, s_depth=5, sc_len=4, sc_depth=4, chunks=4)
 
 
 def sel_values(extra=False):
@@ -255,10 +335,12 @@ def leaf_defect(ref, lf, vi):
     ctx = M.split_value(ref.values[vi])[1]
     if lf[0] == "s":
         cause["feature"] = path_feature(ctx, lf[1].split("."))
+        cause["components"] = len(lf[1].split("."))
     elif lf[0] == "sc":
         cause["feature"] = ("addressed sub-context present"
-                            if path_feature(ctx, lf[2].split(".")) == "key present"
+                            if path_feature(ctx, M.path_of(lf[2])) == "key present"
                             else "addressed sub-context absent")
+        cause["components"] = len(M.path_of(lf[2]))
     if len(bad) == 1:
         cause["only_with_raise_on_error"] = list(bad)[0]
     return cause
@@ -301,8 +383,9 @@ def path_feature(ctx, path):
     return "key present"
 
 
-def check_spec(res, ref, spec, roe, form, mixed=False, sample=False):
-    """Build one object and judge it on every value of the family."""
+def check_spec(res, ref, spec, roe, form, mixed=False, sample=False, interesting=None):
+    """Build one object and judge it on every value of the family. *interesting* (a list of booleans,
+    one per value) replaces the rule for what is non-trivial (the path laws state their own)."""
     law = "selector-mixed-roe" if mixed else "selector"
     try:
         obj, refspec = build_top(spec, roe, form)
@@ -325,7 +408,7 @@ def check_spec(res, ref, spec, roe, form, mixed=False, sample=False):
             acc = ref.lazy(refspec, vi, roe)
         got = observe(obj, value)
         n += 1
-        if composite and (has_not or len(louts) > 1):
+        if interesting[vi] if interesting is not None else (composite and (has_not or len(louts) > 1)):
             nontrivial += 1
         if got not in acc:
             case = {"law": law, "spec": M.to_json(spec), "roe": roe, "form": form,
@@ -753,12 +836,18 @@ def _dom(tier):
 
 def describe(tier):
     d = _dom(tier)
+    pd = _path_dom(tier)
     return ("selectors: 10 leaves (3 strings, 2 classes, 5 callables); depth <= 1 with lists/tuples of 0..3 "
             "items; depth 2 = Not / list / tuple of 1..2 items over all 242 depth<=1 specifications with "
             "0..2 items%s; depth 3 = Not / list / tuple of (one depth-2 item [+ one leaf-level item]) over a "
             "%s alphabet%s; both raise_on_error; forms Selector(spec), direct And/Or/Not%s; %d values "
-            "(4 data x 8 contexts); SelectContext: 7 keys x 4 predicates x %d values, alone and inside "
-            "one-level composites; own raise_on_error per sub-selector to depth 2%s; Filter over all "
+            "(4 data x 11 contexts); SelectContext: %d keys (the empty key in three notations among them) x "
+            "4 predicates x %d values, alone and inside "
+            "one-level composites; path law: %d dotted strings of 1..%d components over a, b (+ last "
+            "component 1 / 0) as Selector / Not / [s] / (s,) x %d chain contexts of depth 0..%d (5 kinds of "
+            "ends, plain and with a sibling key at every level), %d SelectContext keys (paths of 0..%d "
+            "components in every notation) x 4 predicates x both raise_on_error x %d chain contexts; "
+            "own raise_on_error per sub-selector to depth 2%s; Filter over all "
             "depth<=1 specifications x 2 flows x run/fill_into; GroupBy: all %d assignments of %s to "
             "group_by / merge / unlisted, %d contexts, all ordered pairs + whole-family flows in three "
             "listing orders"
@@ -766,7 +855,9 @@ def describe(tier):
                if d["extras"] else "", d["deep_name"],
                " and all pairs with a depth-2 item over the 2-leaf alphabet" if d["extras"] else "",
                ", pre-built items" + ("" if d["extras"] else " (depth<=1 and Not only)"),
-               len(sel_values()), len(sel_values(extra=True)),
+               len(sel_values()), len(SC_KEYS), len(sel_values(extra=True)),
+               len(path_strings(pd["s_len"])), pd["s_len"], len(path_values(pd["s_depth"])), pd["s_depth"],
+               len(path_sc_keys(pd["sc_len"])), pd["sc_len"], len(path_values(pd["sc_depth"])),
                " (+ one more level)" if d["extras"] else "",
                2 * 3 ** (len(gb_keys(tier)) - 1), gb_keys(tier), len(gb_family(tier))))
 
@@ -777,6 +868,9 @@ def shards(tier):
     out.append({"kind": "sel1", "bound": "depth<=1"})
     out.append({"kind": "sc", "bound": "depth<=1"})
     out.append({"kind": "filter", "bound": "depth<=1"})
+    for part in ("strings", "sc"):
+        for ch in range(_path_dom(tier)["chunks"]):
+            out.append({"kind": "paths", "part": part, "chunk": ch, "bound": "depth<=1"})
     for roe in (True, False):
         out.append({"kind": "mixed", "outer": roe, "bound": "depth<=2"})
     for roe in (True, False):
@@ -893,6 +987,8 @@ def run_shard(p, tier):
         run_mixed(res, tier, p["outer"])
     elif kind == "filter":
         run_filter(res, tier)
+    elif kind == "paths":
+        run_paths(res, tier, p["part"], p["chunk"])
     elif kind == "groupby":
         run_groupby(res, tier, p["fixed"])
     else:
@@ -923,6 +1019,47 @@ def run_sc(res, tier):
                 for top in ("or", "and"):
                     check_spec(res, ref, (top, (("sc",) + k1 + (p1,), ("sc",) + k2 + (p2,))), roe,
                                "selector")
+
+
+def run_paths(res, tier, part, chunk):
+    """Key paths of every length (components repeat) against nested contexts of every depth.
+
+    strings: Selector(s), Not(s), [s], (s,) for every dotted string; non-trivial when at least two
+    components of the string are keys on the way down, or the reference selects the value.
+    sc: SelectContext(key, predicate) for every path in every notation (the empty path = the context
+    itself), alone, inside Selector and under Not; non-trivial when the addressed sub-context is
+    present (the predicate is really applied)."""
+    d = _path_dom(tier)
+    if part == "strings":
+        ref = Ref(path_values(d["s_depth"]))
+        ctxs = [M.split_value(v)[1] for v in ref.values]
+        mine = [x for i, x in enumerate(path_strings(d["s_len"])) if i % d["chunks"] == chunk]
+        for dotted in mine:
+            leaf = ("s", dotted)
+            parts = dotted.split(".")
+            hot = [M.descent(c, parts) >= 2 or ref.leaf(leaf, vi) == ("ok", True)
+                   for vi, c in enumerate(ctxs)]
+            check_spec(res, ref, leaf, True, "selector", sample=True, interesting=hot)
+            check_spec(res, ref, leaf, False, "selector", interesting=hot)
+            check_spec(res, ref, ("not", leaf, True), True, "selector", interesting=hot)
+            check_spec(res, ref, ("not", leaf, True), True, "direct", interesting=hot)
+            check_spec(res, ref, ("or", (leaf,)), True, "selector", interesting=hot)
+            check_spec(res, ref, ("and", (leaf,)), True, "selector", interesting=hot)
+    elif part == "sc":
+        ref = Ref(path_values(d["sc_depth"]))
+        ctxs = [M.split_value(v)[1] for v in ref.values]
+        mine = [x for i, x in enumerate(path_sc_keys(d["sc_len"])) if i % d["chunks"] == chunk]
+        for notation, dotted in mine:
+            path = M.path_of(dotted)
+            hot = [M.descent(c, path) == len(path) for c in ctxs]
+            for pred in PATH_PREDS:
+                leaf = ("sc", notation, dotted, pred)
+                for roe in (True, False):
+                    check_spec(res, ref, leaf, roe, "direct", sample=roe, interesting=hot)
+                check_spec(res, ref, leaf, True, "selector", interesting=hot)
+                check_spec(res, ref, ("not", leaf, False), False, "direct", interesting=hot)
+    else:
+        raise ValueError(part)
 
 
 def run_mixed(res, tier, outer):
@@ -968,7 +1105,7 @@ def run_mixed(res, tier, outer):
 
 def run_filter(res, tier):
     vjs = sel_values()
-    sc_leaves = [("sc", "str", "a.b", "p_pos"), ("sc", "list", "a", "p_is1")]
+    sc_leaves = [("sc", "str", "a.b", "p_pos"), ("sc", "list", "a", "p_is1"), ("sc", "str", "", "p_len")]
     for roe in (True, False):
         for spec in level1(FULL_LEAVES + sc_leaves, 2, roe):
             for name, flow in filter_flows(spec, roe, vjs):
@@ -1050,7 +1187,9 @@ def replay(case):
 LEVEL_TEXT = ("bounded exhaustive exploration: every selector specification of a 10-leaf alphabet nested "
               "to depth 2 (depth 3 over reduced alphabets), both raise_on_error settings and three "
               "construction forms, is executed on every value of a data x context family and compared "
-              "with a recursive reference evaluator; every accepted (group_by, merge) assignment over "
+              "with a recursive reference evaluator; every dotted string of 1..5 components and every "
+              "SelectContext key path of 0..4 components (all notations, the empty key included) is "
+              "executed on chains of nested dictionaries of every depth 0..5 / 0..4; every accepted (group_by, merge) assignment over "
               "{'', a, b, a.b, a.c, a.b.c} is executed on every ordered pair of a 124-context depth-3 "
               "family and judged by the longest-listed-prefix rule")
 LEVEL_NOTE = ("holds for the enumerated alphabets only; truth values and exception types are compared; "
